@@ -12,6 +12,22 @@ let handle (toks : Stdlib.String.t list) : Stdlib.String.t =
   | ["vwrite"; "M"; i] -> show_res hex_of_bytes (vehicle_write (Mod (n_of_int (int_of_string i))))
   | ["vwrite"; "U"] -> show_res hex_of_bytes (vehicle_write Unknown)
   | ["vdisplay"; i] -> (match vehicle_display (n_of_int (int_of_string i)) with Some b -> hex_of_bytes b | None -> "none")
+  (* gv <codepoints|-> <numeric flags, one 0/1 per char|-> <f32 bits of the major run|none> <usize of the patch run|none>
+     the std oracles (char::is_numeric, f32 / usize FromStr) are answered by the harness per case *)
+  | ["gv"; s; flags; f; u] ->
+      let cps = if s = "-" then [] else Stdlib.List.map (fun x -> int_of_string ("0x" ^ x)) (Stdlib.String.split_on_char ',' s) in
+      let fl = if flags = "-" then [] else Stdlib.List.init (Stdlib.String.length flags) (fun i -> flags.[i] = '1') in
+      let tab = Stdlib.List.combine cps fl in
+      let is_numeric c = (try Stdlib.List.assoc (int_of_n c) tab with Not_found -> false) in
+      let parse_f32 _ = if f = "none" then None else Some (n_of_int (int_of_string f)) in
+      let parse_usize l = if l = [] || u = "none" then None else Some (n_of_int (int_of_string u)) in
+      (match x_gv is_numeric parse_f32 parse_usize (Stdlib.List.map n_of_int cps) with
+       | POk v -> Printf.sprintf "ok %d %d %s" (int_of_n v.v_major) (int_of_n v.v_minor) (match v.v_patch with Some p -> string_of_int (int_of_n p) | None -> "none")
+       | PErr EMajor -> "EMajor" | PErr EMinor -> "EMinor" | PErr EPatch -> "EPatch")
+  | ["vcmp"; m1; c1; p1; m2; c2; p2] ->
+      let mk m c p = { v_major = n_of_int (int_of_string m); v_minor = n_of_int (int_of_string c); v_patch = (if p = "none" then None else Some (n_of_int (int_of_string p))) } in
+      let a = mk m1 c1 p1 and b = mk m2 c2 p2 in
+      (match x_vcmp a b with Eq -> "Eq" | Lt -> "Lt" | Gt -> "Gt") ^ (if x_veq a b then " eq" else " ne")
   | _ -> "?bad-op"
 
 let () = main handle
